@@ -203,6 +203,7 @@ def check_cases(ctx, cases):
             name, legacy, current = legacy_cases(random.Random(case["seed"]))[case["index"]]
             ctx.count("legacy=" + name)
             C = objgen.cls_of(name)
+            legacy = rekey(legacy)   # keys as a decoder would produce them: equal, not identical, to the literals
             l0 = copy.deepcopy(legacy)
             try:
                 a = C.from_dict(legacy)
@@ -240,7 +241,7 @@ def check_cases(ctx, cases):
         except NotPlain as e:
             ctx.fail(case, f"to_dict() of {name} contains a non-plain value ({e})", "to_dict-not-plain:" + name)
             continue
-        d_in = copy.deepcopy(d)
+        d_in = rekey(copy.deepcopy(d))
         d_keep = copy.deepcopy(d)
         try:
             o2 = C.from_dict(d_in)
@@ -322,6 +323,19 @@ def check_cases(ctx, cases):
 # nested dictionaries that are the dictionary form of a model object (everything else — metadata,
 # branches, headers — is user content, where a None value or a missing key means something)
 SUBOBJECT_KEYS = {"author", "committer", "date", "committer_date", "timestamp", "authority", "fetcher"}
+
+
+def rekey(v):
+    """the same value with every str key (and str value) a fresh object, never the interned literal —
+    what a JSON / msgpack / pickle decoder hands over"""
+    fresh = lambda x: "".join([x[: len(x) // 2], x[len(x) // 2 :]]) if len(x) > 1 else x
+    if isinstance(v, dict):
+        return {(fresh(k) if isinstance(k, str) else k): rekey(x) for k, x in v.items()}
+    if isinstance(v, list):
+        return [rekey(x) for x in v]
+    if isinstance(v, tuple):
+        return tuple(rekey(x) for x in v)
+    return v
 
 
 def none_paths(d, path=()):
